@@ -598,7 +598,18 @@ func c17BcGen(k int, r *vg.Rand) c17Input {
 			in.extra = " mutation=" + how + " of " + what
 		default:
 			h2 := want + int64(r.Intn(3))
-			switch r.Intn(24) {
+			switch r.Intn(27) {
+			case 24, 25, 26: // finding F85: a block whose evidence used to panic types.BlockFromProto
+				b := c17BcBlock(h2)
+				powers := [][]int64{{types.MaxTotalVotingPower, 1}, {math.MaxInt64}, {types.MaxTotalVotingPower / 2, types.MaxTotalVotingPower/2 + 1, 1}, {10, 20}, {-5, 7}}[r.Intn(5)]
+				vals := make([]*types.Validator, len(powers))
+				for i, p := range powers {
+					vals[i] = types.NewValidator(ed25519.GenPrivKeyFromSecret([]byte(fmt.Sprint("c17f85", i))).PubKey(), p)
+				}
+				b.Evidence = types.EvidenceData{Evidence: types.EvidenceList{&types.LightClientAttackEvidence{
+					ConflictingBlock: &types.LightBlock{ValidatorSet: &types.ValidatorSet{Validators: vals, Proposer: vals[0]}}, CommonHeight: 1}}}
+				b.Header.EvidenceHash = b.Evidence.Hash()
+				blockCase("block-evidence-valset", b, fmt.Sprintf("genuine block %d carrying LightClientAttackEvidence whose conflicting block has no signed header and a validator set with voting powers %v, EvidenceHash recomputed", h2, powers))
 			case 0:
 				hostile("block-nil", c17BcWrap(&bcproto.BlockResponse{}), "&BlockResponse{Block: nil}")
 			case 1:
